@@ -179,8 +179,62 @@ def gen_bin(args):
     return recs
 
 
+def gen_ctrl(seqs):
+    emd = core.import_emd()
+    C = emd.cycles
+    recs = []
+
+    def iv(v):
+        if isinstance(v, str):
+            return -99
+        if v is None or (isinstance(v, float) and np.isnan(v)):
+            return -1
+        return int(v) if float(v) == int(v) else -98
+    prev = None
+    for sq in seqs:
+        x = np.array(sq, dtype=float)
+        recs.append({'kind': 'cf', 'x': list(sq), 'peak': iv(core.guarded(C.cf_peak_sample, x, interp=False)),
+                     'trough': iv(core.guarded(C.cf_trough_sample, x, interp=False)),
+                     'desc': iv(core.guarded(C.cf_descending_zero_sample, x, interp=False)),
+                     'asc': iv(core.guarded(C.cf_ascending_zero_sample, x, interp=False))})
+        if prev is not None and len(recs) % 5 == 0:
+            # two cycles (the previous waveform, a gap, this one; the second sometimes shorter than five samples)
+            second = list(sq) if len(recs) % 10 else list(sq)[:3]
+            xx = list(prev) + [0] + second
+            lab = [0] * len(prev) + [-1] + [1] * len(second)
+            o = core.guarded(C.get_control_points, np.array(xx, float), np.array(lab), mode='cycle')
+            rows = [[-99] * 5] if isinstance(o, str) else [[iv(v) for v in row] for row in np.asarray(o, dtype=float)]
+            recs.append({'kind': 'ctrl', 'x': xx, 'lab': lab, 'rows': rows})
+        prev = sq
+    return recs
+
+
+def control_points_leg(ctx):
+    """Specification growth beyond C14 (within-cycle control points, spec/ControlPointsDef.tla): theorems model-checked,
+    every short waveform pushed through the real cf_* helpers and get_control_points; not a verdict on C14."""
+    cfg = os.path.join(ctx.work, 'cp.cfg')
+    L = ctx.pick(7, 8)
+    invs = ['Interior', 'SignDuality', 'PeakIsHighest', 'PeakAboveTrough']
+    core.write_cfg(cfg, init='Init', next_='Next', invariants=invs, constants={'MaxLenC': L, 'LevelsC': '<- Levels3'})
+    core.require_ok(core.run_tlc(ctx, 'ControlPoints', cfg, name='ControlPoints theorems'), 'ControlPoints')
+    core.write_cfg(cfg, init='Init', next_='Next', invariants=['W_AllFour'], constants={'MaxLenC': 6, 'LevelsC': '<- Levels3'})
+    core.expect_violation(ctx, 'ControlPoints', cfg, 'W_AllFour', 'ControlPoints W_AllFour', workers=2)
+    seqs = [q for n in range(5, L + 1) for q in itertools.product((-1, 0, 1), repeat=n)]
+    rng = np.random.RandomState(ctx.seed)
+    seqs += [tuple(int(v) for v in rng.randint(-2, 3, size=int(rng.randint(5, 12)))) for _ in range(ctx.pick(500, 5000))]
+    recs = [r for rs in core.pmap(gen_ctrl, [seqs[i::16] for i in range(16)]) for r in rs]
+    cov0 = (ctx.cov['traces_validated_against_impl'], ctx.cov['evaluations'])
+    bad = core.validate_records(ctx, 'ControlPointsRec', recs, name='ControlPointsRec')
+    ctx.cov['traces_validated_against_impl'], ctx.cov['evaluations'] = cov0       # not counted towards C14's coverage
+    for clause in sorted(set(c for _, c in bad)):
+        rs = [r for r, c in bad if c == clause]
+        ctx.extra('%s disagrees with ControlPointsDef on %d records; first: %s' % (clause, len(rs), rs[0]))
+    ctx.leg('control points (beyond C14, not a verdict)', invariants=invs, records=len(recs), mismatches=len(bad))
+
+
 def run():
     ctx = Ctx('C14')
+    control_points_leg(ctx)
     L = ctx.pick(4, 5)
     cfg = os.path.join(ctx.work, 'cs.cfg')
     invs = ['ProjectionShape', 'Conservation', 'Locality']
